@@ -55,16 +55,13 @@ func parseCIDR(cidr string) (*net.IPNet, error) {
 		return nil, err // Return original CIDR parse error
 	}
 
-	// Convert single IP to CIDR notation
-	if ip.To4() != nil {
-		// IPv4
-		_, ipNet, _ = net.ParseCIDR(cidr + "/32")
-	} else {
-		// IPv6
-		_, ipNet, _ = net.ParseCIDR(cidr + "/128")
+	// Convert the single address to a network that contains exactly that address. The
+	// network is built from the parsed IP, not from the text: appending "/32" to an
+	// IPv4-mapped spelling such as "::ffff:10.0.0.1" would yield the IPv6 network ::/32.
+	if v4 := ip.To4(); v4 != nil {
+		return &net.IPNet{IP: v4, Mask: net.CIDRMask(32, 32)}, nil
 	}
-
-	return ipNet, nil
+	return &net.IPNet{IP: ip, Mask: net.CIDRMask(128, 128)}, nil
 }
 
 // IsAllowed checks if the given IP address is allowed
